@@ -188,8 +188,6 @@ func runC13(c *Ctx) {
 		}
 	}
 
-	ruleResultOnEveryExit(c) // "never deadlocks": the command loop blocks on the delivery result
-
 	if f := c.A.Func("(*statusCollector).fillRemaining"); f != nil {
 		// every channel is visited: the loop over the recipient channels is never left from inside its body
 		nOuter := 0
@@ -209,6 +207,8 @@ func runC13(c *Ctx) {
 		}
 		R.Ob("(*statusCollector).fillRemaining/ranges over the channels", c.P.Pos(f.Pos()), nOuter >= 1, "no range over the status map found")
 	}
+
+	ruleResultOnEveryExit(c) // "never deadlocks": the command loop blocks on the delivery result
 
 	R.Rule("R-status-nonblocking", "E1", "SetStatus and fillRemaining send only inside non-blocking selects on the recipient's channel; misuse panics instead of blocking the backend", 4)
 	if f := c.A.Func("(*statusCollector).SetStatus"); f != nil {
